@@ -1,17 +1,23 @@
-/- Line-protocol handlers of C16: the decisions on the data generated from the working tree
-   (`Generated/Prange.lean`, `Generated/EstimatorState.lean`), the `check_random_state` model, conformance of
-   dynamic traces to the generated descriptions, the interleaving explorer for small loops. -/
+/- Line-protocol handlers of C16: the decisions on the data generated from the working tree, the `check_random_state`
+   model, conformance of dynamic traces to the generated descriptions, the interleaving explorer for small loops.
+   The handler is parametrised by the generated data (`handleWith`): the harness writes one module per tree
+   (`SkNet/Generated/C16T<tag>.lean`: data + `def handle := handleWith …`), so that concurrent checks of different
+   trees never read each other's data. -/
 import SkNet.Model.ParFor
 import SkNet.Model.Estimator
-import SkNet.Generated.Prange
-import SkNet.Generated.EstimatorState
 
 namespace SkNet.Drive.C16
 open SkNet SkNet.Proto SkNet.ParFor SkNet.Estimator
 
-def findLoop (n : String) : Option Loop := SkNet.Generated.Prange.loops.find? (·.name == n)
-def tbl : List Est := SkNet.Generated.EstimatorState.estimators
-def findEst (n : String) : Option Est := Est.lookup tbl n
+/-- the data generated from one tree -/
+structure Data where
+  loops : List Loop
+  tbl : List Est
+  crs : List (String × String)
+  ompCompile : Bool
+  ompLink : Bool
+  /-- content hash of the generated data, compared by the harness with the hash of what it generated in this run -/
+  hash : String
 
 def strList? (s : String) : Option (List String) :=
   if s == "-" then some [] else some (s.splitOn ",")
@@ -31,20 +37,28 @@ def rsArg? (s : String) : Option RsArg :=
   if s == "none" then some .none
   else if s == "inst" then some (.inst ⟨1, 4⟩)
   else if s == "other" then some .other
+  else if s == "bool:1" then some (.bool true)
+  else if s == "bool:0" then some (.bool false)
   else match s.splitOn ":" with
     | ["int", v] => v.toInt?.map RsArg.int
     | _ => none
 
-def handle : Handler
-  | "c16.loops", [] => some (showStrs (SkNet.Generated.Prange.loops.map (·.name)))
-  | "c16.omp", [] => some (showBool SkNet.Generated.Prange.ompCompile ++ " " ++ showBool SkNet.Generated.Prange.ompLink)
+def handleWith (d : Data) : Handler :=
+  let findLoop := fun (n : String) => d.loops.find? (·.name == n)
+  let tbl := d.tbl
+  let findEst := fun (n : String) => Est.lookup tbl n
+  fun cmd args => match cmd, args with
+  | "c16.datahash", [] => some d.hash
+  | "c16.loops", [] => some (showStrs (d.loops.map (·.name)))
+  | "c16.omp", [] => some (showBool d.ompCompile ++ " " ++ showBool d.ompLink)
   | "c16.racefree", [n] => some <| match findLoop n with
       | none => "no-such-loop"
       | some l =>
         let inex := l.inexactReductions
-        let tail := if inex.isEmpty then "" else " inexact=" ++ showStrs inex
-        if l.raceFree then "racefree" ++ tail
-        else "racy " ++ (match l.firstBad with | some a => a.show.replace " " "_" | none => "?") ++ tail
+        -- a float reduction is combined in an order that depends on the thread count: not deterministic
+        if !l.raceFree then "racy " ++ (match l.firstBad with | some a => a.show.replace " " "_" | none => "?")
+        else if !inex.isEmpty then "inexact " ++ showStrs inex
+        else "racefree"
   | "c16.pinned", [n] => some <| match findLoop n, pinnedLoops.find? (·.name == n) with
       | some l, some p => if l == p then "same" else "changed"
       | some _, none => "new-loop"
@@ -56,9 +70,9 @@ def handle : Handler
   | "c16.history", [n] => some <| match findEst n with
       | none => "no-such-class"
       | some e =>
-        if e.historyOK tbl fuel then
+        if e.staticOK tbl fuel then
           "ok" ++ (if e.assumptions.isEmpty then "" else " assumes=" ++ showStrs e.assumptions)
-        else "dep " ++ (e.whyNot tbl).replace " " "_"
+        else "dep " ++ (e.whyNotStatic tbl fuel).replace " " "_"
   | "c16.estdesc", [n] => some <| match findEst n with
       | none => "no-such-class"
       | some e => s!"reads={showStrs e.readsFirst} may={showStrs e.mayWrite} must={showStrs e.mustWrite} " ++
@@ -80,8 +94,8 @@ def handle : Handler
       | none => "no-such-class"
       | some e =>
         if observed == "equal" then "holds"
-        else if e.historyOK tbl fuel then "fails model=history-independent observed=" ++ observed
-        else "fails model=" ++ (e.whyNot tbl).replace " " "_" ++ " observed=" ++ observed
+        else if e.staticOK tbl fuel then "fails model=history-independent observed=" ++ observed
+        else "fails model=" ++ (e.whyNotStatic tbl fuel).replace " " "_" ++ " observed=" ++ observed
   | "c16.setparam", [n, name] => some <| match findEst n with
       | none => "no-such-class"
       | some e => if e.setParamAccepted name then "ok" else "err ValueError"
@@ -91,7 +105,7 @@ def handle : Handler
   | "c16.crs", [a] => some <| Option.getD (do
       let arg ← rsArg? a
       let w : World := { globalState := 5, next := 3, entropy := 9 }
-      match checkRandomState SkNet.Generated.EstimatorState.checkRandomState arg w with
+      match checkRandomState d.crs arg w with
       | none => some "unknown-branch"
       | some (.error .typeError) => some "err TypeError"
       | some (.error .valueError) => some "err ValueError"
@@ -101,9 +115,10 @@ def handle : Handler
         else if g.id == w.next then
           (match arg with
            | .int s => some ((if g.state == seedState s then "new-seeded " else "new-other ") ++ unchanged)
+           | .bool b => some ((if g.state == seedState (if b then 1 else 0) then "new-seeded " else "new-other ") ++ unchanged)
            | _ => some ((if g.state == w.entropy then "new-entropy " else "new-other ") ++ unchanged))
         else some ("same " ++ unchanged)) "bad-args"
-  | "c16.crs_ok", [] => some (if crsOK SkNet.Generated.EstimatorState.checkRandomState then "holds" else "fails")
+  | "c16.crs_ok", [] => some (if crsOK d.crs then "holds" else "fails")
   -- all interleavings of `arr[idx t] += 1`: the distinct final contents of the touched elements
   | "c16.interleave", [idx] => some <| Option.getD (do
       let ix ← natList? idx
@@ -112,6 +127,6 @@ def handle : Handler
       let outs := outcomes prog ix.length (fun _ => 0) locs
       let rf := raceFreeB prog ix.length
       some (showBool rf ++ " " ++ showListList (outs.map fun o => o.map Int.toNat))) "bad-args"
-  | _, _ => none
+    | _, _ => none
 
 end SkNet.Drive.C16
